@@ -61,6 +61,9 @@ type World struct {
 	Mon       *Monitors
 	User      *simapi.Client
 	Behav     map[string]*NodeBehaviour
+	// ForceStuck[node]: terminating pods of that node are never finalised, also while the kubelet is cooperative
+	// (scripted phases: one unresponsive node in an otherwise healthy cluster)
+	ForceStuck map[string]bool
 	Coop      bool // cooperative kubelet: ignore hostile knobs
 	nestSteps []string
 	// c11Keys: keys of the faultable calls in the order they reached the seam (fault engine)
@@ -254,6 +257,9 @@ func (w *World) ReconcileAll() (minRequeue time.Duration, anyErr bool) {
 
 func (w *World) behav(node string) *NodeBehaviour {
 	if w.Coop {
+		if w.ForceStuck[node] {
+			return &NodeBehaviour{StuckTerminating: true}
+		}
 		return &NodeBehaviour{}
 	}
 	if b := w.Behav[node]; b != nil {
